@@ -191,11 +191,14 @@ Proof.
   intros Hk [H Q]. split; [exact H|]. intros t. cbn. rewrite get_set. destruct (N.eqb i j); [congruence|apply Q].
 Qed.
 
+Lemma has_set_stage2 th i k X st0 j : k <> 0 -> st0 = stage X -> has_inst X j -> has_inst (X <| stage := set i (th, k) st0 |>) j.
+Proof. intros Hk -> H. now apply has_set_stage. Qed.
+
 Ltac has_tac :=
   unfold set_pc, end_finish, end_release_early;
   repeat first
   [ assumption
-  | apply has_set_stage; [discriminate|]
+  | apply has_set_stage2; [discriminate|unfold set_pc, end_finish, end_release_early; autorewrite with sup; reflexivity|]
   | apply has_upd_inst | apply has_upd_vis | apply has_write_status | apply has_set_thread | apply has_fold_upd_inst
   | match goal with
     | |- has_inst (if ?b then _ else _) _ => destruct b
